@@ -54,12 +54,9 @@ struct Codec<std::tuple<Types...>>
 
   static auto decode_arg(std::byte*& buffer)
   {
-    std::tuple<decltype(Codec<Types>::decode_arg(buffer))...> arg;
-
-    std::apply([&buffer](auto&... elems)
-               { ((elems = Codec<std::decay_t<decltype(elems)>>::decode_arg(buffer)), ...); }, arg);
-
-    return arg;
+    // each element is decoded by the codec that encoded it; the decoded type can have a different codec
+    // (e.g. StringRef decodes to std::string_view). Braced initialisation evaluates left to right
+    return std::tuple<decltype(Codec<Types>::decode_arg(buffer))...>{Codec<Types>::decode_arg(buffer)...};
   }
 
   static void decode_and_store_arg(std::byte*& buffer, DynamicFormatArgStore* args_store)
